@@ -121,6 +121,10 @@ class Term:
         # Now copy the content of t onto self
         self.__dict__.update(t.__dict__)
 
+        # The id used for fast comparison must be that of the new object:
+        # t may be a temporary whose address is reused by another term.
+        self._id = id(self)
+
     def is_svar(self) -> bool:
         return self.ty == Term.SVAR
 
